@@ -1,8 +1,9 @@
 package main
 
 // Translation of Grouper.Aggregate / Grouper.QFrames (grouper.go), of the wrappers QFrame.GroupBy / QFrame.Distinct
-// with their helpers (qframe.go), of groupby.NewConfig (config/groupby) and of the aggregation loop, the
-// built-in aggregations and the Comparable (constructor and Compare) of internal/icolumn into Gallina
+// with their helpers (qframe.go), of groupby.NewConfig (config/groupby), of the aggregation loop and the
+// built-in aggregations of internal/icolumn, fcolumn, bcolumn (the instances of internal/template) and of the
+// Comparable of all five column packages (constructor, Compare, Hash; scolumn's bytesAt) into Gallina
 // (coq/Gen/GenAggr.v, tie T1 for C04 / C03).
 //
 // The functions listed in gaSpecs are translated statement by statement into definitions ga_<name>.
@@ -29,7 +30,19 @@ package main
 //	              interface{} value handed to qerrors.New as a parameter -> fn_text fn
 //	              index.NewAscending is the translated gc_NewAscending of GenFilterClause.v, integer.Max /
 //	              integer.Min the translated gf_integer_Max / gf_integer_Min of GenFuncs.v.
-//	            NOT translated at all: Comparable.Hash (unsafe.Pointer), the other column packages.
+//	              hash.HashBytes(b, seed) -> memhash b seed (body text-matched; memhash is the runtime's);
+//	              return rand.Uint64() -> the next value of a stream: a function that calls rand takes the
+//	              stream state v_rand : R and returns the rest beside its result (rand_Uint64 : R -> N * R)
+//	              x.isNull() of an ecolumn.enumVal, p.IsNull() / p.Offset() / p.Len() of a strings.Pointer ->
+//	              the translated gf_ecolumn_enumVal_isNull / gf_strings_Pointer_* of GenFuncs.v (on Z).
+//	floats      float64 -> N (the bit pattern); ALL float operations are section variables: 0 / 0.0 -> f_zero,
+//	            math.NaN() -> f_NaN, x + y -> f_add, x / y -> f_div, float64(n) -> f_of_int, math.Max / math.Min
+//	            -> f_Max / f_Min, x < y -> f_lt x y, x > y -> f_lt y x, math.IsNaN(x) -> f_isnan x, x == 0 ->
+//	            f_iszero x; math.Float64bits(f) is the identity.  uint64 -> N.
+//	unsafe      ( *[8]byte)(unsafe.Pointer(&v))[:] for a uint64 variable v -> ga_le64 v (its little-endian bytes);
+//	            x := &s[i] of an []int, x only handed to ( *[8]byte)(unsafe.Pointer(x))[:] -> ga_le64 (ga_u64 x)
+//	            (two's complement); both text-matched.  [1]byte{e} / b[:] -> the one element byte list.
+//	            NOT translated: scolumn.Column.Aggregate (func([]*string) *string, New), Subset, the views.
 //	values      int -> Z (exact: positions, lengths, counters; in the functions listed in gaWrapInts, whose ints
 //	            are data, + wraps: wrap64); uint32 -> Z, uint32(e) -> ga_u32 e; bool; string -> bytes;
 //	            error -> option E (nil = None); column.Column (an interface value) -> option C (nil = None, a
@@ -41,7 +54,9 @@ package main
 //	slices      []T -> list T; nil and the empty slice are both [].  make([]T, n [, c]) -> ga_make zero n c,
 //	            make([]T, 0, c) -> ga_make0 c (Panic for negative sizes); s[i] -> ga_index, s[i] = v -> ga_update
 //	            (Panic outside the range); append(s, x) -> s ++ [x]; s[1:] -> ga_tail1 (Panic when empty);
-//	            T{a, b} -> [a; b]; len(s) / s.Len() on an index.Int -> Z.of_nat (length s).
+//	            T{a, b} -> [a; b]; len(s) / s.Len() on an index.Int -> Z.of_nat (length s); s[lo:hi] -> ga_slice
+//	            (Panic unless 0 <= lo <= hi <= len: the capacity of a slice is taken to be its length);
+//	            []byte -> bytes; bytes.Compare -> ga_bytes_compare (-1 / 0 / 1 from bytes_cmp).
 //	maps        map[string]V -> list (bytes * V) in insertion order; m[k] = v appends, m[k] and v, ok := m[k]
 //	            find the LAST entry with the key (ga_map_get; the zero value when there is none);
 //	            make(map.., n) -> [] (the size hint is dropped).  Ranging over a map and len of a map are rejected,
@@ -53,8 +68,11 @@ package main
 //	            x.m(..) for a method m of an embedded interface field is x.Field.m(..).
 //	functions   a func value func([]int) int is a Coq function list Z -> outcome Z; the type switch
 //	            switch t := fn.(type) { case string: .. case func([]int) int: .. default: .. } is
-//	            match fn_cases fn with ga_FnString t => .. | ga_FnFunc t => .. | ga_FnOther => .. end
-//	            (fn_cases : Fn -> ga_fncase, a section variable: the reflection of the dynamic type).
+//	            match fn_cases_T fn with ga_FnString t => .. | ga_FnFunc t => .. | ga_FnOther => .. end
+//	            (fn_cases_int / _float64 / _bool : Fn -> ga_fncase T, section variables: the reflection of the
+//	            dynamic type as the package with element type T sees it).
+//	switch      switch r { case K: .. default: .. } on an int with integer constant cases, every branch ending
+//	            in return -> nested if (r =? K).
 //	pointers    &x only as the argument of a ConfigFunc call or as a *[]int buffer argument of a translated
 //	            function (value-result: the callee returns the new pointee beside its result); *p reads the
 //	            current pointee, *p = e stores it; cap(*p) is abstracted: see ga_cap below.
@@ -94,6 +112,18 @@ const gaIcolumnPkg = "internal/icolumn"
 
 type gaSpec struct{ pkg, fn string }
 
+// the column packages: short name and the Go element type of Column.data ("" when the package is not an instance
+// of internal/template)
+var gaColPkgs = map[string]struct{ short, elem string }{
+	"internal/icolumn": {"icolumn", "int"},
+	"internal/fcolumn": {"fcolumn", "float64"},
+	"internal/bcolumn": {"bcolumn", "bool"},
+	"internal/scolumn": {"scolumn", ""},
+	"internal/ecolumn": {"ecolumn", ""},
+}
+
+func gaIsColPkg(pkg string) bool { _, ok := gaColPkgs[pkg]; return ok }
+
 // in emission order
 var gaSpecs = []gaSpec{
 	{gaGroupbyPkg, "NewConfig"},
@@ -103,7 +133,16 @@ var gaSpecs = []gaSpec{
 	{gaRoot, "Grouper.Aggregate"}, {gaRoot, "Grouper.QFrames"},
 	{gaIcolumnPkg, "sum"}, {gaIcolumnPkg, "max"}, {gaIcolumnPkg, "min"}, {gaIcolumnPkg, "aggregations"},
 	{gaIcolumnPkg, "Column.subsetWithBuf"}, {gaIcolumnPkg, "Column.Aggregate"},
-	{gaIcolumnPkg, "Column.Comparable"}, {gaIcolumnPkg, "Comparable.Compare"},
+	{gaIcolumnPkg, "Column.Comparable"}, {gaIcolumnPkg, "Comparable.Compare"}, {gaIcolumnPkg, "Comparable.Hash"},
+	{"internal/fcolumn", "sum"}, {"internal/fcolumn", "avg"}, {"internal/fcolumn", "max"}, {"internal/fcolumn", "min"},
+	{"internal/fcolumn", "aggregations"}, {"internal/fcolumn", "Column.subsetWithBuf"}, {"internal/fcolumn", "Column.Aggregate"},
+	{"internal/fcolumn", "Column.Comparable"}, {"internal/fcolumn", "Comparable.Compare"}, {"internal/fcolumn", "Comparable.Hash"},
+	{"internal/bcolumn", "majority"}, {"internal/bcolumn", "aggregations"}, {"internal/bcolumn", "Column.subsetWithBuf"},
+	{"internal/bcolumn", "Column.Aggregate"}, {"internal/bcolumn", "Column.Comparable"}, {"internal/bcolumn", "Comparable.Compare"},
+	{"internal/bcolumn", "Comparable.Hash"},
+	{"internal/scolumn", "Column.bytesAt"}, {"internal/scolumn", "Column.Comparable"}, {"internal/scolumn", "Comparable.Compare"},
+	{"internal/scolumn", "Comparable.Hash"},
+	{"internal/ecolumn", "Column.Comparable"}, {"internal/ecolumn", "Comparable.Compare"}, {"internal/ecolumn", "Comparable.Hash"},
 }
 
 // functions whose ints are data (64 bit wrap-around on +)
@@ -112,6 +151,8 @@ var gaWrapInts = map[string]bool{gaIcolumnPkg + ":sum": true}
 var gaRecSpecs = []gaSpec{
 	{gaRoot, "namedColumn"}, {gaRoot, "QFrame"}, {gaRoot, "Grouper"}, {gaRoot, "Aggregation"}, {gaRoot, "Order"},
 	{gaGroupbyPkg, "Config"}, {gaIcolumnPkg, "Column"}, {gaIcolumnPkg, "Comparable"},
+	{"internal/fcolumn", "Column"}, {"internal/fcolumn", "Comparable"}, {"internal/bcolumn", "Column"}, {"internal/bcolumn", "Comparable"},
+	{"internal/scolumn", "Column"}, {"internal/scolumn", "Comparable"}, {"internal/ecolumn", "Column"}, {"internal/ecolumn", "Comparable"},
 }
 
 // the text the fixed vocabulary stands for (printed by go/printer; without body when the text has none)
@@ -127,6 +168,13 @@ var gaVocabulary = []struct{ pkg, fn, text string }{
 	{"internal/grouper", "Distinct", "func Distinct(ix index.Int, comparables []column.Comparable) index.Int"},
 	{gaIcolumnPkg, "New", "func New(d []int) Column"},
 	{gaIcolumnPkg, "Column.fnName", "func (c Column) fnName(name string) string {\n\treturn fmt.Sprintf(\"%s.%s\", c.DataType(), name)\n}"},
+	{"internal/fcolumn", "Column.fnName", "func (c Column) fnName(name string) string {\n\treturn fmt.Sprintf(\"%s.%s\", c.DataType(), name)\n}"},
+	{"internal/bcolumn", "Column.fnName", "func (c Column) fnName(name string) string {\n\treturn fmt.Sprintf(\"%s.%s\", c.DataType(), name)\n}"},
+	{"internal/hash", "HashBytes", "func HashBytes(bb []byte, seed uint64) uint64 {\n\tss := (*stringStruct)(unsafe.Pointer(&bb))\n\treturn uint64(memhash(ss.str, uintptr(seed), uintptr(ss.len)))\n}"},
+	{"internal/ecolumn", "enumVal.isNull", "func (v enumVal) isNull() bool {\n\treturn v == nullValue\n}"},
+	{"internal/strings", "Pointer.IsNull", "func (p Pointer) IsNull() bool"},
+	{"internal/strings", "Pointer.Offset", "func (p Pointer) Offset() int"},
+	{"internal/strings", "Pointer.Len", "func (p Pointer) Len() int"},
 }
 
 // type declarations and interface methods the vocabulary stands for: pkg, type name, text that must occur
@@ -136,19 +184,24 @@ var gaTypeTexts = []struct{ pkg, name, text string }{
 	{"types", "SliceFuncOrBuiltInId", "interface{}"},
 	{"internal/index", "Int", "[]uint32"},
 	{"internal/column", "CompareResult", "byte"},
+	{"internal/ecolumn", "enumVal", "uint8"},
+	{"internal/strings", "Pointer", "uint64"},
 	{"internal/column", "Column", "Subset(index index.Int) Column"},
 	{"internal/column", "Column", "Comparable(reverse, equalNull, nullLast bool) Comparable"},
 	{"internal/column", "Column", "Aggregate(indices []index.Int, fn interface{}) (Column, error)"},
 }
 
 const gaPreamble = `(* GENERATED by tools/qf2coq (aggr.go) from grouper.go, qframe.go (GroupBy, Distinct and their helpers),
-   config/groupby and internal/icolumn (Aggregate, subsetWithBuf, aggregations.go, Comparable, Compare) of
+   config/groupby, internal/icolumn / fcolumn / bcolumn (Aggregate, subsetWithBuf, aggregations.go) and the
+   Comparable (constructor, Compare, Hash) of internal/icolumn / fcolumn / bcolumn / scolumn / ecolumn of
    tobgu/qframe — do not edit.
    One Record ga_<T> per struct, one definition ga_<function> per translated Go function, one Definition
    ga_<function>_loopN (a fix over the ranged list) per loop; the scheme is described at the top of
    tools/qf2coq/aggr.go.  C = a non-nil column.Column, E = error value, Fn = interface{} (aggregation function or
    name), S = GroupStats, K = column.Comparable, CF = groupby.ConfigFunc are abstract; row ids (uint32) and ints
-   are Z; a map[string]V is the association list of its insertions (the LAST entry of a key is its value).
+   are Z; float64 and uint64 are N (bit patterns; the float operations are the variables f_zero .. f_iszero); memhash and the random
+   stream (rand_Uint64 over the state type R) are variables; a map[string]V is the association list of its
+   insertions (the LAST entry of a key is its value).
    Every function answers outcome T (Panic = Go panic); there is no fuel: every loop ranges over a list. *)
 From QF Require Import Base.Prelude Gen.GenFuncs Gen.GenFilterClause.
 Local Open Scope Z_scope.
@@ -185,21 +238,37 @@ Definition ga_column_GreaterThan : Z := 1.
 Definition ga_column_Equal : Z := 2.
 Definition ga_column_NotEqual : Z := 3.
 (* the dynamic type of an interface{} value as the type switch of Column.Aggregate sees it *)
-Inductive ga_fncase : Type :=
+Inductive ga_fncase (T : Type) : Type :=
 | ga_FnString (s : bytes)
-| ga_FnFunc (f : list Z -> outcome Z)
+| ga_FnFunc (f : list T -> outcome T)
 | ga_FnOther.
+Arguments ga_FnString {T} s.
+Arguments ga_FnFunc {T} f.
+Arguments ga_FnOther {T}.
+(* s[lo:hi] (the capacity of a slice is taken to be its length), bytes.Compare *)
+Definition ga_slice {T : Type} (s : list T) (lo hi : Z) : outcome (list T) :=
+  if (lo <? 0) || (hi <? lo) || (Z.of_nat (length s) <? hi) then Panic
+  else Ok (firstn (Z.to_nat (hi - lo)) (skipn (Z.to_nat lo) s)).
+Definition ga_bytes_compare (x y : bytes) : Z :=
+  match bytes_cmp x y with Lt => -1 | Eq => 0 | Gt => 1 end.
+(* ( *[8]byte)(unsafe.Pointer(&v))[:] for a 64 bit v: its little-endian bytes; an int as uint64 *)
+Fixpoint ga_le_bytes (n : nat) (v : N) : bytes :=
+  match n with O => [] | S n' => N.land v 255 :: ga_le_bytes n' (N.shiftr v 8) end.
+Definition ga_le64 (v : N) : bytes := ga_le_bytes 8 v.
+Definition ga_u64 (z : Z) : N := Z.to_N (z mod 18446744073709551616).
 (* a []int whose address is taken (a reusable buffer) is the pair (elements, capacity); p *[]int is the current
    pointee: *p -> fst p, cap( *p) -> snd p, *p = make([]int, 0, n) -> p := ([], n) *)
 
 Section GenAggr.
-Context {C E Fn S K CF : Type}.
+Context {C E Fn S K CF R : Type}.
 Variable s0 : S.                                              (* the zero GroupStats *)
 Variable new_error : bytes -> bytes -> list bytes -> E.       (* qerrors.New(operation, reason, params...) *)
 Variable propagate : bytes -> option E -> E.                  (* qerrors.Propagate(operation, err) *)
 Variable unknownCol : bytes -> bytes.                         (* unknownCol(c) *)
 Variable fn_eq_string : Fn -> bytes -> bool.                  (* fn == "literal" *)
-Variable fn_cases : Fn -> ga_fncase.                          (* switch t := fn.(type) *)
+Variable fn_cases_int : Fn -> ga_fncase Z.                    (* switch t := fn.(type) in icolumn *)
+Variable fn_cases_float64 : Fn -> ga_fncase N.                (* ... in fcolumn *)
+Variable fn_cases_bool : Fn -> ga_fncase bool.                (* ... in bcolumn *)
 Variable col_Subset : C -> list Z -> outcome (option C).      (* col.Subset(index) *)
 Variable col_Aggregate : C -> list (list Z) -> Fn -> outcome (option C * option E).   (* col.Aggregate(indices, fn) *)
 Variable col_Comparable : C -> bool -> bool -> bool -> K.     (* col.Comparable(reverse, equalNull, nullLast) *)
@@ -208,6 +277,18 @@ Variable icolumn_Column : list Z -> C.                        (* icolumn.Column{
 Variable grouper_GroupBy : list Z -> list K -> outcome (list (list Z) * S).   (* grouper.GroupBy *)
 Variable grouper_Distinct : list Z -> list K -> outcome (list Z).             (* grouper.Distinct *)
 Variable icolumn_fnName : bytes -> bytes.                     (* c.fnName(name) of an icolumn.Column c *)
+Variable fcolumn_Column : list N -> C.                        (* fcolumn.Column{data: d} as a column.Column *)
+Variable fcolumn_fnName : bytes -> bytes.
+Variable bcolumn_Column : list bool -> C.                     (* bcolumn.Column{data: d} as a column.Column *)
+Variable bcolumn_fnName : bytes -> bytes.
+(* float64 values are their bit patterns (N); the arithmetic is abstract *)
+Variable f_zero f_NaN : N.                                    (* the literals 0 / 0.0, math.NaN() *)
+Variable f_add f_div f_Max f_Min : N -> N -> N.               (* x + y, x / y, math.Max, math.Min *)
+Variable f_of_int : Z -> N.                                   (* float64(n) *)
+Variable f_lt : N -> N -> bool.                               (* x < y (x > y is f_lt y x) *)
+Variable f_isnan f_iszero : N -> bool.                        (* math.IsNaN(x), x == 0 *)
+Variable memhash : bytes -> N -> N.                           (* hash.HashBytes(b, seed) *)
+Variable rand_Uint64 : R -> N * R.                            (* rand.Uint64(): the value and the rest of the stream *)
 Variable fn_text : Fn -> bytes.                               (* an interface{} value as a qerrors.New parameter *)
 
 `
@@ -282,10 +363,14 @@ func (t *gaT) coq() string {
 		return "CF"
 	case "cmp":
 		return "K"
+	case "f64", "u64", "byte":
+		return "N"
+	case "u8", "ptr", "pint":
+		return "Z"
 	case "func":
-		return "(list Z -> outcome Z)"
+		return "(list " + t.el.coq() + " -> outcome " + t.el.coq() + ")"
 	case "buf":
-		return "(list Z * Z)"
+		return "(list " + t.el.coq() + " * Z)"
 	case "slice":
 		return "(list " + t.el.coq() + ")"
 	case "map":
@@ -316,8 +401,14 @@ func (t *gaT) zero() (string, bool) {
 		return "None", true
 	case "stats":
 		return "s0", true
+	case "f64":
+		return "f_zero", true
+	case "u64", "byte":
+		return "0%N", true
+	case "u8", "ptr":
+		return "0", true
 	case "func": // a nil func: calling it panics
-		return "(fun _ : list Z => @Panic Z)", true
+		return "(fun _ : list " + t.el.coq() + " => @Panic " + t.el.coq() + ")", true
 	case "slice", "map":
 		return "[]", true
 	case "rec":
@@ -392,10 +483,35 @@ func gaResolve(pkg, src string) *gaT {
 		return gaK("cres")
 	case "interface{}", "types.SliceFuncOrBuiltInId":
 		return gaK("fn")
-	case "func([]int) int":
-		return gaK("func")
-	case "*[]int":
-		return gaK("buf")
+	case "float64":
+		return gaK("f64")
+	case "uint64":
+		return gaK("u64")
+	case "byte":
+		return gaK("byte")
+	case "qfstrings.Pointer":
+		return gaK("ptr")
+	}
+	if cp, ok := gaColPkgs[pkg]; ok && cp.elem != "" {
+		el := gaResolve(pkg, cp.elem)
+		switch src {
+		case "func([]" + cp.elem + ") " + cp.elem:
+			return &gaT{k: "func", el: el}
+		case "*[]" + cp.elem:
+			return &gaT{k: "buf", el: el}
+		}
+	}
+	if cp, ok := gaColPkgs[pkg]; ok {
+		switch src {
+		case "Column":
+			return gaRecT(cp.short + "_Column")
+		case "Comparable":
+			return gaRecT(cp.short + "_Comparable")
+		case "enumVal":
+			if cp.short == "ecolumn" {
+				return gaK("u8")
+			}
+		}
 	}
 	switch pkg {
 	case gaRoot:
@@ -415,13 +531,6 @@ func gaResolve(pkg, src string) *gaT {
 			return gaK("cf")
 		case "Config":
 			return gaRecT("Config")
-		}
-	case gaIcolumnPkg:
-		switch src {
-		case "Column":
-			return gaRecT("icolumn_Column")
-		case "Comparable":
-			return gaRecT("icolumn_Comparable")
 		}
 	}
 	return gaBad
@@ -450,8 +559,8 @@ func gaFindType(p *pkgInfo, name string) (ast.Expr, bool) {
 }
 
 func gaCoqRecName(sp gaSpec) string {
-	if sp.pkg == gaIcolumnPkg {
-		return "icolumn_" + sp.name()
+	if cp, ok := gaColPkgs[sp.pkg]; ok {
+		return cp.short + "_" + sp.name()
 	}
 	return sp.name()
 }
@@ -460,8 +569,8 @@ func (sp gaSpec) name() string { return sp.fn }
 
 func gaLoadRec(sp gaSpec) *gaRec {
 	r := &gaRec{pkg: sp.pkg, name: sp.fn}
-	if sp.pkg == gaIcolumnPkg {
-		r.name = "icolumn_" + sp.fn
+	if cp, ok := gaColPkgs[sp.pkg]; ok {
+		r.name = cp.short + "_" + sp.fn
 	}
 	p := loadPkg(sp.pkg)
 	e, ok := gaFindType(p, sp.fn)
@@ -562,15 +671,16 @@ type gaVar struct {
 }
 
 type gaFunc struct {
-	spec   gaSpec
-	fd     *ast.FuncDecl
-	coq    string
-	recv   *gaVar
-	params []gaVar
-	res    *gaT // a tuple for several results
-	text   string
-	ok     bool
-	done   bool
+	spec     gaSpec
+	fd       *ast.FuncDecl
+	coq      string
+	recv     *gaVar
+	params   []gaVar
+	res      *gaT // a tuple for several results
+	text     string
+	ok       bool
+	done     bool
+	usesRand bool // the function calls rand.Uint64(): it takes the stream v_rand and returns the rest
 }
 
 var gaFuncs map[string]*gaFunc // by "pkg:Name"
@@ -687,6 +797,12 @@ func (t *gaTr) coerce(n ast.Node, text string, have, want *gaT) string {
 	if have.k == "int" && want.k == "u32" && strings.Trim(text, "0123456789") == "" { // an untyped constant
 		return text
 	}
+	if have.k == "int" && want.k == "f64" && text == "0" {
+		return "f_zero"
+	}
+	if have.k == "int" && want.k == "byte" && strings.Trim(text, "0123456789") == "" {
+		return text + "%N"
+	}
 	if have.k == "string" && want.k == "fn" {
 		t.fail(n, "a string converted to interface{} is outside the scheme")
 		return text
@@ -712,6 +828,10 @@ func (t *gaTr) expr(e ast.Expr, c gaCtx, pre *[]string) (string, *gaT) {
 		case token.INT:
 			if strings.Trim(x.Value, "0123456789") == "" {
 				return x.Value, gaK("int")
+			}
+		case token.FLOAT:
+			if x.Value == "0.0" {
+				return "f_zero", gaK("f64")
 			}
 		case token.STRING:
 			if len(x.Value) >= 2 && (x.Value[0] == '"' || x.Value[0] == '`') && !strings.Contains(x.Value, "\\") {
@@ -765,11 +885,18 @@ func (t *gaTr) expr(e ast.Expr, c gaCtx, pre *[]string) (string, *gaT) {
 			y, ty := t.expr(x.X, c, pre)
 			t.coerce(x.X, y, ty, gaK("int"))
 			return "(- " + y + ")", gaK("int")
+		case token.AND: // &s[i] of an []int, only read through: the element (the index is checked)
+			if ie, ok := x.X.(*ast.IndexExpr); ok {
+				y, ty := t.expr(ie, c, pre)
+				if ty.k == "int" {
+					return y, gaK("pint")
+				}
+			}
 		}
 	case *ast.StarExpr:
 		y, ty := t.expr(x.X, c, pre)
 		if ty.k == "buf" {
-			return "(fst " + y + ")", gaSlice(gaK("int"))
+			return "(fst " + y + ")", gaSlice(ty.el)
 		}
 	case *ast.IndexExpr:
 		s, ty := t.expr(x.X, c, pre)
@@ -791,6 +918,35 @@ func (t *gaTr) expr(e ast.Expr, c gaCtx, pre *[]string) (string, *gaT) {
 		t.fail(e, "index into something that is not a slice or a map: %s", t.src(e))
 		return "0", gaBad
 	case *ast.SliceExpr:
+		if m := gaUnsafeRe.FindStringSubmatch(t.src(e)); m != nil {
+			// ( *[8]byte)(unsafe.Pointer(&v))[:] / ( *[8]byte)(unsafe.Pointer(p))[:]
+			if v, ok := c.lookup(m[2]); ok {
+				if m[1] == "&" && v.ty.k == "u64" {
+					return "(ga_le64 " + v.coq + ")", gaSlice(gaK("byte"))
+				}
+				if m[1] == "" && v.ty.k == "pint" {
+					return "(ga_le64 (ga_u64 " + v.coq + "))", gaSlice(gaK("byte"))
+				}
+			}
+			t.fail(e, "unsafe cast outside the scheme: %s", t.src(e))
+			return "[]", gaBad
+		}
+		if x.Low == nil && x.High == nil && x.Max == nil {
+			s, ty := t.expr(x.X, c, pre)
+			if ty.k == "slice" {
+				return s, ty
+			}
+		}
+		if x.Low != nil && x.High != nil && x.Max == nil {
+			s, ty := t.expr(x.X, c, pre)
+			lo, tl := t.expr(x.Low, c, pre)
+			hi, th := t.expr(x.High, c, pre)
+			if ty.k == "slice" {
+				t.coerce(x.Low, lo, tl, gaK("int"))
+				t.coerce(x.High, hi, th, gaK("int"))
+				return t.bind(pre, fmt.Sprintf("ga_slice %s %s %s", s, lo, hi), ty)
+			}
+		}
 		if x.Low != nil && x.High == nil && x.Max == nil && t.src(x.Low) == "1" {
 			s, ty := t.expr(x.X, c, pre)
 			if ty.k == "slice" {
@@ -816,7 +972,13 @@ func (t *gaTr) expr(e ast.Expr, c gaCtx, pre *[]string) (string, *gaT) {
 	return "0", gaBad
 }
 
+var gaUnsafeRe = regexp.MustCompile(`^\(\*\[8\]byte\)\(unsafe\.Pointer\((&?)([A-Za-z_][A-Za-z0-9_]*)\)\)\[:\]$`)
+
 func (t *gaTr) composite(x *ast.CompositeLit, c gaCtx, pre *[]string) (string, *gaT) {
+	if t.src(x.Type) == "[1]byte" && len(x.Elts) == 1 { // a one byte array, only used as b[:]
+		y, ty := t.expr(x.Elts[0], c, pre)
+		return "[" + t.coerce(x.Elts[0], y, ty, gaK("byte")) + "]", gaSlice(gaK("byte"))
+	}
 	ty := t.resolve(x.Type)
 	switch ty.k {
 	case "slice":
@@ -892,6 +1054,33 @@ func (t *gaTr) binary(x *ast.BinaryExpr, c gaCtx, pre *[]string) (string, *gaT) 
 		return "0", gaBad
 	}
 	isNum := func(k string) bool { return k == "int" }
+	if ta.k == "f64" || tb.k == "f64" {
+		lit0 := func(e ast.Expr) bool { return t.src(e) == "0" }
+		switch {
+		case x.Op == token.ADD && ta.k == "f64" && tb.k == "f64":
+			return fmt.Sprintf("(f_add %s %s)", a, b), gaK("f64")
+		case x.Op == token.QUO && ta.k == "f64" && tb.k == "f64":
+			return fmt.Sprintf("(f_div %s %s)", a, b), gaK("f64")
+		case x.Op == token.LSS && ta.k == "f64" && tb.k == "f64":
+			return fmt.Sprintf("(f_lt %s %s)", a, b), gaK("bool")
+		case x.Op == token.GTR && ta.k == "f64" && tb.k == "f64":
+			return fmt.Sprintf("(f_lt %s %s)", b, a), gaK("bool")
+		case x.Op == token.EQL && ta.k == "f64" && lit0(x.Y):
+			return fmt.Sprintf("(f_iszero %s)", a), gaK("bool")
+		}
+		t.fail(x, "float operator outside the scheme: %s", t.src(x))
+		return "0", gaBad
+	}
+	if ta.k == "u8" && tb.k == "u8" {
+		switch x.Op {
+		case token.LSS:
+			return fmt.Sprintf("(%s <? %s)", a, b), gaK("bool")
+		case token.GTR:
+			return fmt.Sprintf("(%s <? %s)", b, a), gaK("bool")
+		case token.EQL:
+			return fmt.Sprintf("(%s =? %s)", a, b), gaK("bool")
+		}
+	}
 	switch x.Op {
 	case token.ADD, token.SUB:
 		if isNum(ta.k) && isNum(tb.k) {
@@ -925,7 +1114,7 @@ func (t *gaTr) binary(x *ast.BinaryExpr, c gaCtx, pre *[]string) (string, *gaT) 
 			text = "(ga_isnil " + a + ")"
 		case ta.k == "nil" && (tb.k == "err" || tb.k == "col"):
 			text = "(ga_isnil " + b + ")"
-		case isNum(ta.k) && isNum(tb.k):
+		case isNum(ta.k) && isNum(tb.k), ta.k == "cres" && tb.k == "cres":
 			text = fmt.Sprintf("(%s =? %s)", a, b)
 		case ta.k == "bool" && tb.k == "bool":
 			text = fmt.Sprintf("(Bool.eqb %s %s)", a, b)
@@ -980,7 +1169,7 @@ func (t *gaTr) callTranslated(g *gaFunc, n *ast.CallExpr, recv string, c gaCtx, 
 				}
 			}
 			if !ok || v.ty.k != "buf" {
-				t.fail(a, "a *[]int argument must be &x for a local []int x")
+				t.fail(a, "a buffer argument must be &x for a local slice x")
 				continue
 			}
 			parts = append(parts, v.coq)
@@ -1016,9 +1205,9 @@ func (t *gaTr) call(x *ast.CallExpr, c gaCtx, pre *[]string) (string, *gaT) {
 	fun := t.src(x.Fun)
 	if id, ok := x.Fun.(*ast.Ident); ok {
 		if v, isVar := c.lookup(id.Name); isVar {
-			if v.ty.k == "func" { // a func([]int) int value
-				if a, ok := t.argsOf(x, c, pre, gaSlice(gaK("int"))); ok {
-					return t.bind(pre, v.coq+" "+a[0], gaK("int"))
+			if v.ty.k == "func" { // a func([]T) T value
+				if a, ok := t.argsOf(x, c, pre, gaSlice(v.ty.el)); ok {
+					return t.bind(pre, v.coq+" "+a[0], v.ty.el)
 				}
 				return "0", gaBad
 			}
@@ -1091,6 +1280,45 @@ func (t *gaTr) call(x *ast.CallExpr, c gaCtx, pre *[]string) (string, *gaT) {
 			}
 			return t.bind(pre, fmt.Sprintf("ga_make %s %s %s", z, n, cp), ty)
 		}
+	case "math.IsNaN":
+		if a, ok := t.argsOf(x, c, pre, gaK("f64")); ok {
+			return "(f_isnan " + a[0] + ")", gaK("bool")
+		}
+		return "false", gaBad
+	case "math.NaN":
+		if len(x.Args) == 0 {
+			return "f_NaN", gaK("f64")
+		}
+	case "math.Max", "math.Min":
+		if a, ok := t.argsOf(x, c, pre, gaK("f64"), gaK("f64")); ok {
+			return fmt.Sprintf("(f_%s %s %s)", fun[len("math."):], a[0], a[1]), gaK("f64")
+		}
+		return "0", gaBad
+	case "math.Float64bits":
+		if a, ok := t.argsOf(x, c, pre, gaK("f64")); ok {
+			return a[0], gaK("u64")
+		}
+		return "0", gaBad
+	case "float64":
+		if a, ok := t.argsOf(x, c, pre, gaK("int")); ok {
+			return "(f_of_int " + a[0] + ")", gaK("f64")
+		}
+		return "0", gaBad
+	case "byte":
+		if a, ok := t.argsOf(x, c, pre, gaK("u8")); ok {
+			return "(Z.to_N " + a[0] + ")", gaK("byte")
+		}
+		return "0", gaBad
+	case "hash.HashBytes":
+		if a, ok := t.argsOf(x, c, pre, gaSlice(gaK("byte")), gaK("u64")); ok {
+			return fmt.Sprintf("(memhash %s %s)", a[0], a[1]), gaK("u64")
+		}
+		return "0", gaBad
+	case "bytes.Compare":
+		if a, ok := t.argsOf(x, c, pre, gaSlice(gaK("byte")), gaSlice(gaK("byte"))); ok {
+			return fmt.Sprintf("(ga_bytes_compare %s %s)", a[0], a[1]), gaK("int")
+		}
+		return "0", gaBad
 	case "uint32":
 		if a, ok := t.argsOf(x, c, pre, gaK("int")); ok {
 			return "(ga_u32 " + a[0] + ")", gaK("u32")
@@ -1181,15 +1409,15 @@ func (t *gaTr) call(x *ast.CallExpr, c gaCtx, pre *[]string) (string, *gaT) {
 	r, tr := t.expr(sel.X, c, pre)
 	if tr.k == "rec" {
 		goName := tr.rec
-		if gaRecs[tr.rec].pkg == gaIcolumnPkg {
-			goName = strings.TrimPrefix(tr.rec, "icolumn_")
+		if cp, ok := gaColPkgs[gaRecs[tr.rec].pkg]; ok {
+			goName = strings.TrimPrefix(tr.rec, cp.short+"_")
 		}
 		if g := gaFuncs[gaRecs[tr.rec].pkg+":"+goName+"."+m]; g != nil {
 			return t.callTranslated(g, x, r, c, pre)
 		}
-		if tr.rec == "icolumn_Column" && m == "fnName" {
+		if cp, ok := gaColPkgs[gaRecs[tr.rec].pkg]; ok && cp.elem != "" && tr.rec == cp.short+"_Column" && m == "fnName" {
 			if a, ok := t.argsOf(x, c, pre, gaK("string")); ok {
-				return "(icolumn_fnName " + a[0] + ")", gaK("string")
+				return "(" + cp.short + "_fnName " + a[0] + ")", gaK("string")
 			}
 			return "[]", gaBad
 		}
@@ -1201,6 +1429,19 @@ func (t *gaTr) call(x *ast.CallExpr, c gaCtx, pre *[]string) (string, *gaT) {
 		}
 	}
 	switch tr.k {
+	case "u8":
+		if m == "isNull" && len(x.Args) == 0 {
+			return "(gf_ecolumn_enumVal_isNull " + r + ")", gaK("bool")
+		}
+	case "ptr":
+		if len(x.Args) == 0 {
+			switch m {
+			case "IsNull":
+				return "(gf_strings_Pointer_IsNull " + r + ")", gaK("bool")
+			case "Offset", "Len":
+				return "(gf_strings_Pointer_" + m + " " + r + ")", gaK("int")
+			}
+		}
 	case "col":
 		switch m {
 		case "Subset":
@@ -1440,11 +1681,11 @@ func (t *gaTr) simple(st ast.Stmt, c *gaCtx) ([]string, bool) {
 		if se, ok := s.Lhs[0].(*ast.StarExpr); ok && len(s.Lhs) == 1 && !define {
 			if id, ok := se.X.(*ast.Ident); ok {
 				if v, ok := c.lookup(id.Name); ok && v.ty.k == "buf" {
-					if ce, ok := s.Rhs[0].(*ast.CallExpr); ok && t.src(ce.Fun) == "make" && len(ce.Args) == 3 && t.src(ce.Args[0]) == "[]int" && t.src(ce.Args[1]) == "0" {
+					if ce, ok := s.Rhs[0].(*ast.CallExpr); ok && t.src(ce.Fun) == "make" && len(ce.Args) == 3 && t.src(ce.Args[0]) == "[]"+gaColPkgs[t.f.spec.pkg].elem && t.src(ce.Args[1]) == "0" {
 						n, tn := t.expr(ce.Args[2], *c, &out)
 						t.coerce(ce.Args[2], n, tn, gaK("int"))
 						tv := t.tmp()
-						out = append(out, fmt.Sprintf("do %s <- @ga_make0 Z %s;", tv, n))
+						out = append(out, fmt.Sprintf("do %s <- @ga_make0 %s %s;", tv, v.ty.el.coq(), n))
 						out = append(out, fmt.Sprintf("let %s := (%s, %s) in", v.coq, tv, n))
 						return out, true
 					}
@@ -1526,10 +1767,10 @@ func (t *gaTr) simple(st ast.Stmt, c *gaCtx) ([]string, bool) {
 			ty := t.resolve(vs.Type)
 			for _, id := range vs.Names {
 				if t.addrOf[id.Name] && !ty.same(gaRecT("Config")) {
-					if t.src(vs.Type) != "[]int" || len(vs.Names) != 1 {
-						t.fail(st, "the address of a variable that is not a []int or a Config is taken")
+					if ty.k != "slice" || len(vs.Names) != 1 {
+						t.fail(st, "the address of a variable that is not a slice or a Config is taken")
 					}
-					ty = gaK("buf")
+					ty = &gaT{k: "buf", el: ty.el}
 				}
 			}
 			z, ok := ty.zero()
@@ -1611,6 +1852,9 @@ func (t *gaTr) stmts(list []ast.Stmt, c gaCtx, k func(gaCtx) string) string {
 		if t.f.res.k == "tuple" {
 			want = t.f.res.parts
 		}
+		if t.f.usesRand && len(x.Results) == 1 && t.src(x.Results[0]) == "rand.Uint64()" && t.f.res.k == "u64" {
+			return "let '(t_r, v_rand) := rand_Uint64 v_rand in\nOk (t_r, v_rand)"
+		}
 		if len(x.Results) != len(want) {
 			t.fail(st, "return with %d values", len(x.Results))
 			return "Panic"
@@ -1623,6 +1867,8 @@ func (t *gaTr) stmts(list []ast.Stmt, c gaCtx, k func(gaCtx) string) string {
 		}
 		vals = append(vals, t.retExtra(c)...)
 		return gaJoin(pre, "Ok "+gaTuple(vals))
+	case *ast.SwitchStmt:
+		return t.switchStmt(x, c, cont)
 	case *ast.IfStmt:
 		return t.ifStmt(x, c, cont)
 	case *ast.RangeStmt:
@@ -1640,11 +1886,13 @@ func (t *gaTr) stmts(list []ast.Stmt, c gaCtx, k func(gaCtx) string) string {
 
 // retCoerce: a concrete icolumn.Column returned as a column.Column
 func (t *gaTr) retCoerce(n ast.Node, text string, have, want *gaT) string {
-	if have.k == "rec" && have.rec == "icolumn_Column" && want.k == "col" {
-		return fmt.Sprintf("(Some (icolumn_Column (ga_icolumn_Column_data %s)))", text)
+	if have.k == "rec" && want.k == "col" && strings.HasSuffix(have.rec, "_Column") {
+		if cp, ok := gaColPkgs[gaRecs[have.rec].pkg]; ok && cp.elem != "" {
+			return fmt.Sprintf("(Some (%s_Column (ga_%s_data %s)))", cp.short, have.rec, text)
+		}
 	}
-	if have.k == "rec" && have.rec == "icolumn_Comparable" && want.k == "cmp" {
-		return fmt.Sprintf("(icolumn_Comparable %s)", text)
+	if have.k == "rec" && want.k == "cmp" && strings.HasSuffix(have.rec, "_Comparable") {
+		return fmt.Sprintf("(%s %s)", have.rec, text)
 	}
 	return t.coerce(n, text, have, want)
 }
@@ -1656,6 +1904,67 @@ func (t *gaTr) retExtra(c gaCtx) []string {
 		if p.ty.k == "buf" {
 			out = append(out, p.coq)
 		}
+	}
+	if t.f.usesRand {
+		out = append(out, "v_rand")
+	}
+	return out
+}
+
+// switch e { case K1: .. case K2: .. default: .. } on an int with constant cases, every branch returning
+func (t *gaTr) switchStmt(x *ast.SwitchStmt, c gaCtx, cont func(gaCtx) string) string {
+	bad := func(why string) string {
+		t.fail(x, "switch outside the scheme (%s)", why)
+		return "Panic"
+	}
+	if x.Init != nil || x.Tag == nil {
+		return bad("no tag")
+	}
+	var pre []string
+	tag, tt := t.expr(x.Tag, c, &pre)
+	if tt.k != "int" || len(pre) != 0 {
+		return bad("the tag is not an int variable")
+	}
+	var conds, bodies []string
+	def := ""
+	hasDef := false
+	for _, cl := range x.Body.List {
+		cc := cl.(*ast.CaseClause)
+		for _, st := range cc.Body {
+			if _, isBr := st.(*ast.BranchStmt); isBr {
+				return bad("break / fallthrough")
+			}
+		}
+		if len(cc.Body) == 0 || !gaContainsReturn(cc) {
+			return bad("a branch that does not return")
+		}
+		if _, ok := cc.Body[len(cc.Body)-1].(*ast.ReturnStmt); !ok {
+			return bad("a branch that does not end in return")
+		}
+		body := t.stmts(cc.Body, c, func(c2 gaCtx) string { return "Panic" })
+		if cc.List == nil {
+			def, hasDef = body, true
+			continue
+		}
+		if len(cc.List) != 1 {
+			return bad("a case with several values")
+		}
+		var p2 []string
+		k, tk := t.expr(cc.List[0], c, &p2)
+		if tk.k != "int" || len(p2) != 0 {
+			return bad("a case that is not an integer constant")
+		}
+		conds = append(conds, fmt.Sprintf("(%s =? %s)", tag, k))
+		bodies = append(bodies, body)
+	}
+	if !hasDef {
+		def = cont(c)
+	} else if last := x.Body.List[len(x.Body.List)-1].(*ast.CaseClause); last.List != nil {
+		return bad("default is not the last clause")
+	}
+	out := def
+	for i := len(conds) - 1; i >= 0; i-- {
+		out = fmt.Sprintf("if %s then\n%s\nelse\n%s", conds[i], gaIndent(bodies[i]), gaIndent(out))
 	}
 	return out
 }
@@ -1806,6 +2115,9 @@ func (t *gaTr) resType() string {
 			parts = append(parts, p.ty.coq())
 		}
 	}
+	if t.f.usesRand {
+		parts = append(parts, "R")
+	}
 	return gaTypeTuple(parts)
 }
 
@@ -1944,10 +2256,10 @@ func (t *gaTr) typeSwitch(x *ast.TypeSwitchStmt, c gaCtx, cont func(gaCtx) strin
 			key, ty = "ga_FnOther", gaK("fn")
 		case len(cc.List) == 1 && t.src(cc.List[0]) == "string":
 			key, ty = "ga_FnString", gaK("string")
-		case len(cc.List) == 1 && t.src(cc.List[0]) == "func([]int) int":
-			key, ty = "ga_FnFunc", gaK("func")
+		case len(cc.List) == 1 && gaResolve(t.f.spec.pkg, t.src(cc.List[0])).k == "func":
+			key, ty = "ga_FnFunc", gaResolve(t.f.spec.pkg, t.src(cc.List[0]))
 		default:
-			return bad("a case that is not string, func([]int) int or default")
+			return bad("a case that is not string, func([]T) T for the element type T of the package, or default")
 		}
 		if _, dup := branches[key]; dup {
 			return bad("a case occurs twice")
@@ -1969,15 +2281,17 @@ func (t *gaTr) typeSwitch(x *ast.TypeSwitchStmt, c gaCtx, cont func(gaCtx) strin
 			branches[k] = fmt.Sprintf("| %s _ =>\n%s", k, gaIndent(branches["ga_FnOther"][len("| ga_FnOther =>\n"):]))
 		}
 	}
-	return fmt.Sprintf("match fn_cases %s with\n%s\n%s\n%s\nend", scrut, branches["ga_FnString"], branches["ga_FnFunc"], branches["ga_FnOther"])
+	return fmt.Sprintf("match fn_cases_"+gaColPkgs[t.f.spec.pkg].elem+" %s with\n%s\n%s\n%s\nend", scrut, branches["ga_FnString"], branches["ga_FnFunc"], branches["ga_FnOther"])
 }
 
 // gaTable translates a package level  var name = map[string]func([]int) int{"k": f, ..}
 func gaTable(p *pkgInfo, f *gaFunc) {
 	e, ok := p.vars[f.spec.fn]
 	cl, isLit := e.(*ast.CompositeLit)
-	if !ok || !isLit || gaSrc(p.fset, cl.Type) != "map[string]func([]int) int" {
-		problem("aggregate translation: the table %s of %s is not a map[string]func([]int) int literal", f.spec.fn, f.spec.pkg)
+	elem := gaColPkgs[f.spec.pkg].elem
+	fty := gaResolve(f.spec.pkg, "func([]"+elem+") "+elem)
+	if !ok || !isLit || elem == "" || gaSrc(p.fset, cl.Type) != "map[string]func([]"+elem+") "+elem {
+		problem("aggregate translation: the table %s of %s is not a map[string]func([]T) T literal", f.spec.fn, f.spec.pkg)
 		return
 	}
 	var entries []string
@@ -1995,7 +2309,7 @@ func gaTable(p *pkgInfo, f *gaFunc) {
 			continue
 		}
 		g := gaFuncs[f.spec.pkg+":"+id.Name]
-		if g == nil || !g.done || g.fd == nil || g.recv != nil || len(g.params) != 1 || g.params[0].ty.String() != "[]int" || g.res.k != "int" {
+		if g == nil || !g.done || g.fd == nil || g.recv != nil || len(g.params) != 1 || !g.params[0].ty.same(gaSlice(fty.el)) || !g.res.same(fty.el) {
 			good = false
 			continue
 		}
@@ -2005,8 +2319,8 @@ func gaTable(p *pkgInfo, f *gaFunc) {
 		problem("aggregate translation: an entry of the table %s of %s is outside the scheme", f.spec.fn, f.spec.pkg)
 		return
 	}
-	f.res = gaMap(gaK("func"))
-	f.text = fmt.Sprintf("(* %s\nvar %s = %s *)\nDefinition %s : list (bytes * (list Z -> outcome Z)) := [\n%s\n].\n", f.spec.pkg, f.spec.fn, gaClean(gaSrc(p.fset, cl)), f.coq, strings.Join(entries, ";\n"))
+	f.res = gaMap(fty)
+	f.text = fmt.Sprintf("(* %s\nvar %s = %s *)\nDefinition %s : list (bytes * %s) := [\n%s\n].\n", f.spec.pkg, f.spec.fn, gaClean(gaSrc(p.fset, cl)), f.coq, fty.coq(), strings.Join(entries, ";\n"))
 	f.ok = true
 }
 
@@ -2086,6 +2400,10 @@ func gaTranslate(p *pkgInfo, f *gaFunc) {
 	for _, v := range f.params {
 		c.vars = append(c.vars, v)
 		sig = append(sig, fmt.Sprintf("(%s : %s)", v.coq, v.ty.coq()))
+	}
+	if strings.Contains(gaSrc(p.fset, f.fd.Body), "rand.") {
+		f.usesRand = true
+		sig = append(sig, "(v_rand : R)")
 	}
 	body := t.stmts(f.fd.Body.List, c, func(c2 gaCtx) string {
 		t.fail(f.fd, "the function can fall off its end")
@@ -2174,7 +2492,10 @@ func genAggr() string {
 		block("ga_"+r.name, r.text(), r.ok)
 	}
 	b.WriteString("Variable cf_apply : CF -> ga_Config -> outcome ga_Config.   (* f(&config) for a groupby.ConfigFunc f: the new config *)\n")
-	b.WriteString("Variable icolumn_Comparable : ga_icolumn_Comparable -> K.   (* an icolumn.Comparable as a column.Comparable *)\n\n")
+	for _, sh := range []string{"icolumn", "fcolumn", "bcolumn", "scolumn", "ecolumn"} {
+		fmt.Fprintf(&b, "Variable %s_Comparable : ga_%s_Comparable -> K.   (* an %s.Comparable as a column.Comparable *)\n", sh, sh, sh)
+	}
+	b.WriteString("\n")
 	if cp := loadPkg("internal/column"); true {
 		found := false
 		for _, f := range cp.files {
